@@ -69,6 +69,9 @@ func (c17) Plan(tier string, seed int64) []core.Scenario {
 			}
 		}
 	}
+	// the peer falls silent (and stops reading) while a request larger than the socket buffers is being
+	// written: the silence must still be acted on although a writer is blocked (shared with C03)
+	out = append(out, core.Sc("stalled-write").WithN("mb", 32))
 	for i := range out {
 		out[i].Seed = seed*141650939 + int64(i)
 	}
@@ -77,6 +80,11 @@ func (c17) Plan(tier string, seed int64) []core.Scenario {
 
 func (p c17) Run(sc core.Scenario) core.Result {
 	r := core.NewR(sc)
+	if sc.Kind == "stalled-write" {
+		// bounded-progress verdict with a 32x margin (16 s against a 500 ms timeout): no rescaled confirmation
+		runStalledWrite(sc, r)
+		return r.Result()
+	}
 	fails, key, nontrivial, sample := p.once(sc, 1)
 	r.Key(key, nontrivial)
 	r.Sample(sample)
